@@ -121,3 +121,68 @@ theorem MsInv.of_same {s s' : State} (h1 : s'.ms = s.ms) (h2 : s'.numActive = s.
   exact h
 
 end Foca
+
+namespace Foca
+
+/-! ### knowing the current state: `PresAt`
+
+  `Pres` forgets which state a `getS` returned.  Where a function computes its write from the state it read
+  (renewing the identity it read, bumping the incarnation it read), `PresAt P s0 m` keeps the fact that `m`
+  starts in exactly `s0`. -/
+
+structure PresAt {α} (P : State → Prop) (s0 : State) (m : M α) : Prop where
+  run : ∀ c, c.s = s0 → P s0 → match m c with
+    | .ok _ c' => P c'.s
+    | .err _ c' => P c'.s
+    | .stuck _ => True
+
+variable {P : State → Prop} {s0 : State}
+
+theorem Pres.getS_bind {β} {f : State → M β} (h : ∀ s, PresAt P s (f s)) : Pres P (Foca.getS >>= f) :=
+  ⟨fun c hc => by simp only [bind_run, getS_run]; exact (h c.s).run c rfl hc⟩
+
+theorem PresAt.getS_bind {β} {f : State → M β} (h : PresAt P s0 (f s0)) : PresAt P s0 (Foca.getS >>= f) :=
+  ⟨fun c hc hp => by simp only [bind_run, getS_run]; rw [hc]; exact h.run c hc hp⟩
+
+theorem PresAt.of_pres {α} {m : M α} (h : Pres P m) : PresAt P s0 m :=
+  ⟨fun c hc hp => h.run c (by rw [hc]; exact hp)⟩
+
+theorem PresAt.assume {α} {m : M α} (h : P s0 → PresAt P s0 m) : PresAt P s0 m :=
+  ⟨fun c hc hp => (h hp).run c hc hp⟩
+
+theorem PresAt.bind {α β} {m : M α} {f : α → M β} (hm : PresAt P s0 m) (hf : ∀ a, Pres P (f a)) :
+    PresAt P s0 (m >>= f) := by
+  constructor
+  intro c hc hp
+  have := hm.run c hc hp
+  simp only [bind_run]
+  cases hmc : m c with
+  | stuck x => trivial
+  | err e c' => rw [hmc] at this; exact this
+  | ok a c' =>
+    rw [hmc] at this
+    exact (hf a).run c' this
+
+theorem PresAt.dite {α} {c : Prop} [Decidable c] {a b : M α} (ha : c → PresAt P s0 a) (hb : ¬ c → PresAt P s0 b) :
+    PresAt P s0 (if c then a else b) := by
+  split
+  · exact ha ‹_›
+  · exact hb ‹_›
+
+theorem PresAt.modS {f : State → State} (h : P s0 → P (f s0)) : PresAt P s0 (Foca.modS f) :=
+  ⟨fun c hc hp => by simp only [modS_run]; rw [hc]; exact h hp⟩
+
+/-- a write after which a *stronger* invariant `P2` holds and is kept by the rest -/
+theorem PresAt.switch {β} {P2 : State → Prop} {f : State → State} {rest : M β}
+    (h1 : P s0 → P2 (f s0)) (h2 : Pres P2 rest) (h3 : ∀ s, P2 s → P s) :
+    PresAt P s0 (Foca.modS f >>= fun _ => rest) := by
+  constructor
+  intro c hc hp
+  simp only [bind_run, modS_run]
+  have := h2.run { c with s := f c.s } (by simp only; rw [hc]; exact h1 hp)
+  cases hr : rest { c with s := f c.s } with
+  | stuck x => trivial
+  | err e c' => rw [hr] at this; exact h3 _ this
+  | ok a c' => rw [hr] at this; exact h3 _ this
+
+end Foca
